@@ -49,12 +49,6 @@ const (
 var faultNames = []string{"ok", "get_conn_error", "get_other_error", "usedb_error", "exec_error", "missing_row", "nonnumeric_current",
 	"nonnumeric_increment", "nonnumeric_both", "one_field", "three_fields", "empty_string", "zero_increment", "negative_increment", "no_rows", "null", "float_current"}
 
-// unparsable: replies with two comma-separated fields of which at least one is not an integer
-func faultUnparsable(f int) bool {
-	return f == fMissingRow || f == fNonNumCur || f == fNonNumIncr || f == fNonNumBoth || f == fFloat
-}
-func faultNonPositive(f int) bool { return f == fZeroIncr || f == fNegIncr }
-
 type seqOp struct {
 	Proxy int `json:"p"` // taken modulo the number of proxies
 	Fault int `json:"f"` // outcome of the block fetch, if this request causes one
@@ -255,14 +249,8 @@ func checkSeq(c seqCase) (o pbt.Outcome) {
 				if err == nil {
 					detail := fmt.Sprintf("op %d: proxy %d fetched a block and the fetch outcome was %s, but NextSeq returned value %d and no error (table current_value=%d increment=%d)",
 						i, px, faultNames[op.Fault], v, tb.cur, tb.incr)
-					switch {
-					case faultUnparsable(op.Fault):
-						o.Known, o.KnownWhat = "C34-F1", detail
-					case faultNonPositive(op.Fault):
-						o.Known, o.KnownWhat = "C34-F2", detail
-					default:
-						o.Violation = detail
-					}
+					// (C34-F1 / C34-F2, missing validation of the reply, were repaired in /repo; a recurrence is a plain violation)
+					o.Violation = detail
 					return
 				}
 				continue
